@@ -21,13 +21,13 @@ fn ptrace_strategy_reads_ranges_ending_at_a_mapping_end() {
     }
     let expected = page.to_vec();
 
-    match unsafe { fork() }.expect("fork") {
+    match unsafe { fork() }.expect("setup: fork") {
         ForkResult::Child => loop {
             std::thread::sleep(std::time::Duration::from_secs(1));
         },
         ForkResult::Parent { child } => {
-            ptrace::attach(child).expect("attach");
-            waitpid(child, None).expect("waitpid");
+            ptrace::attach(child).expect("setup: attach");
+            waitpid(child, None).expect("setup: waitpid");
             let mut bad = Vec::new();
             let end = base + 4096;
             for len in [1usize, 3, 7, 8, 9, 11, 17, 31] {
